@@ -24,6 +24,9 @@ def consts():
         c["coulomb_max"] = 244.12 / (30.0 * float(OVERRIDES["coulomb_cutoff1"]))
     if "sidechain_interaction" in OVERRIDES:
         c["hb_max"] = float(OVERRIDES["sidechain_interaction"])
+    ions = {k.split()[1]: float(v) for k, v in OVERRIDES.items() if k.startswith("ions ")}
+    if ions:
+        c["ions"] = dict(base["ions"], **ions)
     return c
 
 
